@@ -1,4 +1,5 @@
 SPECIFICATION TraceSpec
 CONSTANTS
   Assets = {"A", "B", "C"}
+  Bug = "none"
 CHECK_DEADLOCK FALSE
